@@ -234,6 +234,10 @@ class Response:
                     util.reraise(exc_info[0], exc_info[1], exc_info[2])
             finally:
                 exc_info = None
+            # the new status and headers replace the ones of the first call
+            self.headers = []
+            self.response_length = None
+            self.upgrade = False
         elif self.status is not None:
             raise AssertionError("Response headers already set!")
 
